@@ -164,6 +164,18 @@ def scenario_for(seed, index, tier):
         # no status connection is expected: the first TCP connection is the
         # login connection
         sc['server']['conns'] = sc['server']['conns'][1:]
+    if allowed_protos is not None and len(allowed_protos) == 1 and \
+            rng.random() < 0.5:
+        # the same object has already been used for a whole session (with
+        # compression switched on by that server) before the call under
+        # test.  Only with a single allowed version: what an earlier
+        # negotiation leaves behind for the next one is not part of C09.
+        thr = rng.choice([0, 1, 64, 256])
+        first = copy.deepcopy(sc['server']['conns'][-1])
+        first['login'] = [['compress', thr], ['success']]
+        first.pop('status', None)
+        sc['prior'] = {'threshold': thr, 'conns': 1}
+        sc['server']['conns'] = [first] + sc['server']['conns']
     return sc
 
 
@@ -281,6 +293,15 @@ def execute(scenario, tape):
         w.conn = conn
 
         def user():
+            if scenario.get('prior'):
+                st['prior_call'] = w.api('connect', conn.connect)
+                w.wait_until(
+                    lambda: common.all_net_done(w.sim) and
+                    (st['exits'] or st['errs']), 60000000)
+                st['prior'] = {'errs': list(st['errs']),
+                               'exits': list(st['exits'])}
+                del st['errs'][:]
+                del st['exits'][:]
             if scenario['call'] == 'status':
                 hs = {'custom': st['status_calls'].append, 'default': None,
                       'off': False}[scenario['handle_status']]
@@ -329,7 +350,8 @@ def check(scenario, w, st, res):
                        str(exp.get('error') and exp['error'][0]),
                        exp.get('login_proto') is not None,
                        scenario['status']['mode'],
-                       scenario['status'].get('shape'))]
+                       scenario['status'].get('shape'),
+                       bool(scenario.get('prior')))]
     res.nontrivial = exp['construct'] == 'ok'
     ob()
     if st['construct'] != exp['construct']:
@@ -351,6 +373,20 @@ def check(scenario, w, st, res):
                   str(st['call'].exc)[:100]))
         return
     apps = w.server.apps
+    if scenario.get('prior'):
+        ob(3)
+        n = scenario['prior']['conns']
+        pr = st.get('prior') or {}
+        if not st['prior_call'].ok or pr.get('errs') or \
+                len(pr.get('exits', ())) != 1 or len(apps) < n or \
+                not apps[n - 1].reached_play:
+            V.append(('C09/earlier-session-failed',
+                      {'errs': [repr(e)[:80] for e in pr.get('errs', ())],
+                       'conns': len(apps)}))
+            return
+        apps = apps[n:]
+        res.probes['call-after-compressed-session'] = 1
+    base = len(w.server.apps) - len(apps)
     # number of TCP connections and their handshakes
     ob()
     if len(apps) != len(exp['conns']):
@@ -366,7 +402,7 @@ def check(scenario, w, st, res):
             if sim.stats.get('fault.send-error') and \
                     scenario['status']['mode'] in ('close_on_accept',
                                                    'close_on_request') \
-                    and app.conn.index == 0:
+                    and app.conn.index == base:
                 continue     # the send of the handshake itself failed
             V.append(('C09/no-handshake', app.conn.index))
             return
@@ -523,6 +559,11 @@ def check(scenario, w, st, res):
 
 
 def shrink_scenario(sc):
+    if sc.get('prior'):
+        c = copy.deepcopy(sc)
+        n = c.pop('prior')['conns']
+        c['server']['conns'] = c['server']['conns'][n:]
+        yield c
     if sc['allowed'] is not None and len(sc['allowed']) > 2:
         for j in range(len(sc['allowed'])):
             c = copy.deepcopy(sc)
@@ -558,7 +599,8 @@ def evidence(tier, seed, m, d):
         rule='seeded configurations: allowed versions (all / singleton / '
              'pair / prefix / few / containing an invalid entry; names or '
              'numbers) x default version (none / valid / invalid) x call '
-             '(connect, status with 3x3 handler modes) x server status '
+             '(connect, status with 3x3 handler modes; with a single allowed version half the runs follow an '
+             'earlier compressed session on the same object) x server status '
              'behaviour (allowed, supported-not-allowed, known-unsupported, '
              'unknown protocol numbers; no version; no protocol; {}; FIN on '
              'accept; FIN after request) x user name / authenticated profile; '
